@@ -6,7 +6,11 @@ through the three real inference models with per-sample-pure networks
 (`vlib.nets.IdentityNet`).  Metamorphic oracle: for every frame f inside a batch B (any
 sub-multiset / permutation of the pool, size 1..4) the records attributed to f equal the
 records of the singleton batch [f], modulo NaN padding rows, and carry f's frame / video
-index and original size.  Top-k: with max_instances=k the centroids kept for a frame are
+index and original size.  Model kind "topdown-gt" is the centroid-only top-down model
+(`CentroidCrop(return_crops=False)` + `FindInstancePeaksGroundTruth`): the batch also carries the
+NaN-padded ground-truth `instances` of every frame, frames have fewer / as many / more detected
+centroids than ground-truth instances (and more than instance slots); same oracle, no
+assumption about which ground-truth instance a centroid is matched to.  Top-k: with max_instances=k the centroids kept for a frame are
 the k highest-valued brute-force local peaks of its centroid map.
 """
 
@@ -19,9 +23,11 @@ PROPERTY = "C12"
 LEVEL = "exploration"
 RULE = (
     "a case is a pool of generated frames + a batch (indices into the pool, any order, repeats allowed) + a model "
-    "type (single-instance / top-down with and without crops / bottom-up) + max_instances + refinement; the batch "
+    "type (single-instance / top-down with and without crops / centroid-only top-down with ground-truth instances "
+    "(0..slots per frame, NaN-padded; none/fewer/equal/more centroids than instances, more than slots) / bottom-up) + max_instances + refinement; the batch "
     "result restricted to each frame is compared with the singleton-batch result; non-trivial = batch size >= 2 "
-    "containing an empty and a non-empty frame, or frames with different instance counts"
+    "containing an empty and a non-empty frame, or frames with different instance counts (single-instance: different numbers of detected nodes); "
+    "one part per model kind so that every kind gets a fixed share of the budget"
 )
 ASSUMPTIONS = [
     "networks are per-sample pure (IdentityNet), like a CNN in eval mode; batch-norm statistics in train mode are outside the property",
@@ -29,6 +35,9 @@ ASSUMPTIONS = [
     "_make_labeled_frames_from_generator with generated result dicts; because sleap-io 0.9.2 renamed the "
     "PredictedInstance.from_numpy keywords, a keyword-translating wrapper is installed for the duration of the call only "
     "when the old names are rejected (class label shim_sio_from_numpy)",
+    "topdown-gt: a frame in which a detected centroid is (within 1e-3 relative) equally near to two ground-truth instances is "
+    "not judged on its matched instances (class gt:near_tie_not_judged; the nearest-instance choice may flip with float noise); "
+    "frames without any ground-truth instance (all-NaN slots) are included although LabelsReader cannot emit them (class gt:frame_without_gt)",
     "tolerance 1e-5 on coordinates/values (float32 kernels may tile differently for different batch sizes)",
 ]
 TOL = 1e-5
@@ -177,6 +186,77 @@ def run_centroids_only(case, frames, idxs):
     return recs
 
 
+def _gt_tensor(case, idxs):
+    """`instances` as `_predict_generator` batches them: (B, 1, slots, n_nodes, 2), every frame NaN-padded to the
+    pool-wide number of instance slots (LabelsReader: max #instances of any labelled frame), multiplied by the
+    frame's eff_scale."""
+    import numpy as np
+    import torch
+
+    k, n = case["gt_slots"], case["n_nodes"]
+    arr = np.full((len(idxs), 1, k, n, 2), np.nan, dtype=np.float32)
+    for j, i in enumerate(idxs):
+        for a, inst in enumerate(case["gt"][i]):
+            for nd, p in enumerate(inst):
+                if p is not None:
+                    arr[j, 0, a, nd] = [p[0] * case["meta"][i][2], p[1] * case["meta"][i][2]]
+    return torch.from_numpy(arr)
+
+
+def run_topdown_gt(case, frames, idxs):
+    """The centroid-only top-down model `TopDownPredictor` builds when no centered-instance checkpoint is given."""
+    import numpy as np
+    from sleap_nn.inference.topdown import CentroidCrop, FindInstancePeaksGroundTruth, TopDownInferenceModel
+    from vlib.nets import IdentityNet
+
+    cc = CentroidCrop(
+        torch_model=IdentityNet(stride=case["stride"], channels=[0]), output_stride=case["stride"], peak_threshold=case["thr"],
+        max_instances=case["max_instances"], refinement=case["refinement"], integral_patch_size=5, return_crops=False,
+        crop_hw=[case["crop"], case["crop"]], input_scale=1.0, max_stride=1, use_gt_centroids=False,
+    )
+    m = TopDownInferenceModel(centroid_crop=cc, instance_peaks=FindInstancePeaksGroundTruth())
+    inp = _inputs(case, frames, idxs)
+    inp["instances"] = _gt_tensor(case, idxs)
+    outs = m(inp)
+    if not isinstance(outs, list) or len(outs) != 1:
+        raise AssertionError(f"centroid-only top-down model returned {type(outs).__name__} of length {len(outs) if outs is not None else None}")
+    out = outs[0]
+    b, k, n = len(idxs), case["gt_slots"], case["n_nodes"]
+    peaks = out["pred_instance_peaks"].numpy()
+    vals = out["pred_peak_values"].numpy()
+    # the values come back flattened over (frame, slot); fold them when the size allows, else compare the peaks only
+    vals = vals.reshape(b, k, n) if vals.size == b * k * n else None
+    recs = []
+    for j in range(b):
+        recs.append({
+            "frame_idx": int(out["frame_idx"][j]), "video_idx": int(out["video_idx"][j]), "orig_size": out["orig_size"][j].tolist(),
+            "peaks": peaks[j], "vals": vals[j] if vals is not None else np.zeros(peaks[j].shape[:-1]),
+            "cents": out["centroids"][j, 0].numpy()[:, None, :], "cvals": out["centroid_vals"][j].numpy()[:, None],
+        })
+    return recs
+
+
+def _gt_ambiguous(case, fi, cents):
+    """True if some detected centroid of pool frame fi has two ground-truth instances (nearly) equally near: which one
+    is matched may then legitimately flip with float noise, so the frame is not judged.  Distance as documented:
+    centroid to the nearest visible node of the instance (instances as batched, i.e. times eff_scale)."""
+    import numpy as np
+
+    eff = case["meta"][fi][2]
+    for cx, cy in np.asarray(cents, dtype=np.float64).reshape(-1, 2):
+        if math.isnan(cx) or math.isnan(cy):
+            continue
+        ds = []
+        for inst in case["gt"][fi]:
+            d = [math.hypot(p[0] * eff - cx, p[1] * eff - cy) for p in inst if p is not None]
+            if d:
+                ds.append(min(d))
+        ds.sort()
+        if len(ds) >= 2 and ds[1] - ds[0] < 1e-3 * (1 + ds[0]):
+            return True
+    return False
+
+
 def run_bottomup(case, frames, idxs):
     from sleap_nn.inference.bottomup import BottomUpInferenceModel
     from sleap_nn.inference.paf_grouping import PAFScorer
@@ -216,9 +296,9 @@ def evaluate(case):
     batch = case["batch"]
     res.cls(f"model={model}", f"B={min(len(batch), 5)}{'+' if len(batch) > 5 else ''}", f"refine={case['refinement']}", f"k={case['max_instances']}")
     res.n_evals = 0
-    runfn = {"single": run_single, "centroids": run_centroids_only, "bottomup": run_bottomup}.get(model)
+    runfn = {"single": run_single, "centroids": run_centroids_only, "bottomup": run_bottomup, "topdown-gt": run_topdown_gt}.get(model)
 
-    def cmp_record(tag, pos, fi, got, ref):
+    def cmp_record(tag, pos, fi, got, ref, model=model):
         """compare one frame's records: got (from the batch) vs ref (singleton)."""
         if "scores" in got and "scores" in ref and len(got["scores"]) == len(got["peaks"]) and len(ref["scores"]) == len(ref["peaks"]):
             # bottom-up: the instance score travels with its instance
@@ -239,29 +319,55 @@ def evaluate(case):
             res.fail(f"{model}:batch-dependence:values", f"{tag}: frame pool[{fi}] at batch position {pos}: batch result {np.round(gp, 3).tolist()} vs alone {np.round(rp, 3).tolist()}; batch={batch}")
 
     counts = []
-    if model in ("single", "centroids", "bottomup"):
+    gt_rel = set()
+    if model in ("single", "centroids", "bottomup", "topdown-gt"):
         got = runner.guarded(res, f"{model}:batch", runfn, case, frames, batch)
         if got is runner.FAILED:
             return res
+        alone = {}  # pool index -> record of the singleton batch (a frame may occur several times in the batch)
         for pos, fi in enumerate(batch):
-            ref = runner.guarded(res, f"{model}:single", runfn, case, frames, [fi])
-            if ref is runner.FAILED:
-                return res
-            ref = ref[0]
+            if fi not in alone:
+                ref = runner.guarded(res, f"{model}:single", runfn, case, frames, [fi])
+                if ref is runner.FAILED:
+                    return res
+                alone[fi] = ref[0]
+            ref = alone[fi]
             g = got[pos]
             meta = case["meta"][fi]
             if (g["frame_idx"], g["video_idx"]) != (meta[0], meta[1]) or [int(v) for v in g["orig_size"]] != [case["h"], case["w"]]:
                 res.fail(f"{model}:wrong-indices", f"record at position {pos} carries frame {g['frame_idx']} video {g['video_idx']}, expected {meta[:2]}")
-            cmp_record("", pos, fi, g, ref)
+            if model == "topdown-gt":
+                # the detected centroids the record carries, then the ground-truth instances matched to them
+                cmp_record("centroids", pos, fi, {"peaks": g["cents"], "vals": g["cvals"]}, {"peaks": ref["cents"], "vals": ref["cvals"]}, model="topdown-gt:centroids")
+                n_cent = _strip_nan_rows(ref["cents"], ref["cvals"])[0].shape[0]
+                n_gt, slots = len(case["gt"][fi]), case["gt_slots"]
+                gt_rel.add("gt:cent<gt" if n_cent < n_gt else "gt:cent=gt" if n_cent == n_gt else "gt:cent>gt")
+                if n_cent == 0:
+                    gt_rel.add("gt:frame_without_centroids")
+                if n_gt == 0:
+                    gt_rel.add("gt:frame_without_gt")
+                if n_gt > 0 and n_cent > slots:
+                    gt_rel.add("gt:cent>slots")
+                    if any(len(case["gt"][fj]) > 0 for fj in batch[pos + 1:]):
+                        gt_rel.add("gt:cent>slots_then_labelled_frame")
+                if _gt_ambiguous(case, fi, ref["cents"]):
+                    gt_rel.add("gt:near_tie_not_judged")
+                else:
+                    cmp_record("matched ground truth", pos, fi, g, ref)
+            else:
+                cmp_record("", pos, fi, g, ref)
             n_inst = _strip_nan_rows(ref["peaks"], ref["vals"])[0].shape[0]
+            if model == "single":  # one instance by construction: what varies between frames is the number of nodes found
+                n_inst = int(np.sum(~np.isnan(np.asarray(ref["peaks"], dtype=np.float64)).any(axis=-1)))
             counts.append(n_inst)
-            if model == "centroids":
+            if model in ("centroids", "topdown-gt"):
                 # top-k oracle on the centroid map of this frame
                 cm = frames[fi][0][:: case["stride"], :: case["stride"]]
                 pk = sorted((v for _, _, v in local_peaks(cm, case["thr"])), reverse=True)
                 k = case["max_instances"]
                 exp = pk if k is None else pk[:k]
-                gv = sorted([float(v) for v in _strip_nan_rows(g["peaks"], g["vals"])[1].reshape(-1)], reverse=True)
+                gc = (g["cents"], g["cvals"]) if model == "topdown-gt" else (g["peaks"], g["vals"])
+                gv = sorted([float(v) for v in _strip_nan_rows(*gc)[1].reshape(-1)], reverse=True)
                 if len(gv) != len(exp) or any(abs(a - b) > 1e-6 for a, b in zip(gv, exp)):
                     res.fail(f"{model}:top-k", f"frame pool[{fi}]: kept centroid values {np.round(gv, 4).tolist()}, expected the {k} highest of {np.round(pk, 4).tolist()}")
     else:  # topdown with crops: records are keyed by the indices they carry
@@ -301,6 +407,7 @@ def evaluate(case):
                 if [int(v) for v in x["orig_size"]] != [case["h"], case["w"]]:
                     res.fail("topdown:wrong-indices", f"orig_size {x['orig_size']} for frame pool[{fi}]")
     res.nontrivial = len(batch) >= 2 and ((0 in counts and any(n > 0 for n in counts)) or len(set(counts)) > 1)
+    res.cls(*sorted(gt_rel))
     if 0 in counts:
         res.cls("has_empty_frame")
     if counts and all(n == 0 for n in counts):
@@ -403,21 +510,84 @@ def strategy_topk():
     return case()
 
 
-def strategy():
+def _gt_case(refinement, k):
+    """Centroid-only top-down ("topdown-gt"): channel 0 of a frame is the centroid map; every frame also has 0..slots
+    ground-truth instances (original coordinates; nodes may be invisible).  Per frame the number of centroid bumps is
+    drawn relative to its number of ground-truth instances: none / fewer (missed animals) / equal / more (spurious
+    centroids) / more than the pool-wide number of instance slots.  Bumps and animals sit in distinct 8x8 cells."""
     from hypothesis import strategies as st
 
     @st.composite
     def case(draw):
-        model, refinement, k = draw(
+        stride = draw(st.sampled_from([1, 2]))
+        n_nodes = draw(st.integers(1, 3))
+        h, w = draw(st.sampled_from([(24, 32), (32, 32), (40, 24)]))
+        slots = draw(st.sampled_from([1, 2, 2, 3]))
+        n_frames = draw(st.sampled_from([3, 2, 4, 5]))
+        cells = [(cx, cy) for cy in range(h // 8) for cx in range(w // 8)]
+        frames, meta, gt = [], [], []
+        for f in range(n_frames):
+            eff = draw(st.sampled_from([1.0, 1.0, 0.5, 0.8]))
+            n_gt = draw(st.sampled_from(list(range(slots, 0, -1)) * 3 + [0]))
+            rel = draw(st.sampled_from(["over", "equal", "more", "over", "fewer", "over", "equal", "none"]))
+            n_cent = {"none": 0, "fewer": draw(st.integers(0, max(0, n_gt - 1))), "equal": n_gt, "more": n_gt + draw(st.integers(1, 2)),
+                      "over": slots + draw(st.integers(1, 2))}[rel]
+            n_pos = max(n_gt, n_cent)
+            pos = [(8 * cells[i][0] + draw(st.integers(2, 5)), 8 * cells[i][1] + draw(st.integers(2, 5)))
+                   for i in draw(st.lists(st.integers(0, len(cells) - 1), min_size=n_pos, max_size=n_pos, unique=True))]
+            bumps = [[0, x, y, draw(st.sampled_from([0.9, 0.8, 0.7, 0.6, 0.5])), draw(st.sampled_from([1.0, 1.5]))] for x, y in pos[:n_cent]]
+            insts = []
+            for x, y in pos[:n_gt]:  # animal a sits at position a: detected if a < n_cent, else missed
+                inst = []
+                for nd in range(n_nodes):
+                    vis = nd == 0 or draw(st.integers(0, 3)) > 0
+                    inst.append([(x + 3 * nd + draw(st.integers(-1, 1))) / eff, (y + draw(st.integers(-1, 1))) / eff] if vis else None)
+                if n_nodes > 1 and draw(st.integers(0, 5)) == 0:
+                    inst[0] = None  # first node invisible, another one is visible
+                    if all(p is None for p in inst):
+                        inst[-1] = [(x + 3) / eff, y / eff]
+                insts.append(inst)
+            if draw(st.booleans()):
+                # the order of the labelled instances is not the order of the centroids
+                insts = list(draw(st.permutations(insts)))
+            frames.append({"bumps": bumps, "noise": draw(st.sampled_from([0.0, 0.01, 0.05])), "noise_seed": draw(st.integers(0, 10**6))})
+            meta.append([draw(st.integers(0, 50)) * 10 + f, draw(st.integers(0, 2)), eff])
+            gt.append(insts)
+        blen = 1 if draw(st.integers(0, 9)) == 9 else draw(st.sampled_from([3, 2, 4, 5]))
+        batch = draw(st.lists(st.integers(0, n_frames - 1), min_size=blen, max_size=blen))
+        return {
+            "model": "topdown-gt", "refinement": refinement, "max_instances": k, "stride": stride, "paf_stride": 1,
+            "n_nodes": n_nodes, "channels": 1, "h": h, "w": w, "thr": 0.2, "crop": 8,
+            "frames": frames, "meta": meta, "batch": batch, "edge_ratio": 2.0, "gt": gt, "gt_slots": slots,
+        }
+
+    return case()
+
+
+MODELS = ("single", "centroids", "topdown", "bottomup", "topdown-gt")
+
+
+def strategy(model):
+    """Cases of one model kind.  One part per kind: Hypothesis mutates earlier examples keeping their first draws, so a
+    kind drawn inside the strategy arrives in clusters and a quick run can get a third of its fair share of one kind."""
+    from hypothesis import strategies as st
+
+    @st.composite
+    def case(draw):
+        refinement, k = draw(
             st.sampled_from(
-                [(m, r, kk) for m in ("single", "centroids", "topdown", "topdown", "bottomup") for r in (None, "integral")
-                 for kk in ((None, 1, 2, 3) if m in ("centroids", "topdown") else (None, None, None, None))]  # equal weight per model
+                [(r, kk) for r in (None, "integral")
+                 for kk in ((None, 1, 2, 3) if model in ("centroids", "topdown") else (None, 4, 2) if model == "topdown-gt" else (None,))]
             )
         )
+        if model == "topdown-gt":
+            return draw(_gt_case(refinement, k))
         stride = draw(st.sampled_from([1, 2]))
         n_nodes = draw(st.integers(2, 3))
         channels = n_nodes if model != "bottomup" else n_nodes + 2 * (n_nodes - 1)
-        h, w = draw(st.sampled_from([(24, 32), (32, 32), (40, 24)] + ([(16, 24), (16, 24)] if model == "bottomup" else [])))
+        # bottom-up "long batch" class (see below): more frames in the batch than PAF rows/columns, which needs small frames and PAF stride 2
+        long_batch = model == "bottomup" and draw(st.booleans())
+        h, w = (16, 24) if long_batch else draw(st.sampled_from([(24, 32), (32, 32), (40, 24)] + ([(16, 24), (16, 24)] if model == "bottomup" else [])))
         n_frames = draw(st.integers(2, 6))
         frames, meta = [], []
         for f in range(n_frames):
@@ -429,12 +599,14 @@ def strategy():
                 amp = draw(st.sampled_from([0.9, 0.8, 0.7, 0.6, 0.5]))
                 if model == "bottomup":
                     # an "animal": bump in every node channel along a short horizontal line + constant PAF along x
+                    # node spacing: 4 px, or (long batches) 7 px = longer than the distance-penalty threshold of the small-ratio scorer
+                    sp = draw(st.sampled_from([4, 7])) if long_batch else 4
                     for n in range(n_nodes):
                         if draw(st.integers(0, 4)) == 0:
                             continue  # node not visible: its neighbours may connect across animals (long, penalised candidates)
-                        bumps.append([n, min(w - 2, x + 4 * n), y, amp, 1.2])
+                        bumps.append([n, min(w - 2, x + sp * n), y, amp, 1.2])
                     for e in range(n_nodes - 1):  # x-component of the PAF of edge e between its two nodes
-                        bumps.append([n_nodes + 2 * e, min(w - 2, x + 4 * e + 2), y, 0.9, 3.0])
+                        bumps.append([n_nodes + 2 * e, min(w - 2, x + sp * e + sp // 2), y, 0.9, 3.0])
                 else:
                     for ch in range(channels if model != "centroids" else 1):
                         if ch > 0 and draw(st.integers(0, 2)) == 0:
@@ -444,13 +616,13 @@ def strategy():
             meta.append([draw(st.integers(0, 50)) * 10 + f, draw(st.integers(0, 2)), draw(st.sampled_from([1.0, 0.5, 0.8]))])
         batch = draw(st.lists(st.integers(0, n_frames - 1), min_size=1 if draw(st.integers(0, 5)) == 0 else 2, max_size=6))
         edge_ratio = 2.0
-        if model == "bottomup" and draw(st.booleans()):
+        if long_batch:
             # long batches of small frames (more frames than PAF rows/columns) with a small distance-penalty ratio:
             # whatever is derived from tensor shapes must not pick up the batch dimension
             edge_ratio = 0.25
             batch = draw(st.lists(st.integers(0, n_frames - 1), min_size=14, max_size=22))
         return {
-            "model": model, "refinement": refinement, "max_instances": k, "stride": stride, "paf_stride": draw(st.sampled_from([1, 2])),
+            "model": model, "refinement": refinement, "max_instances": k, "stride": stride, "paf_stride": 2 if long_batch else draw(st.sampled_from([1, 2])),
             "n_nodes": n_nodes, "channels": channels, "h": h, "w": w, "thr": 0.2, "crop": draw(st.sampled_from([8, 12])),
             "frames": frames, "meta": meta, "batch": batch, "edge_ratio": edge_ratio,
         }
@@ -461,13 +633,19 @@ def strategy():
 def summarize(case):
     return {k: case[k] for k in ("model", "refinement", "max_instances", "stride", "n_nodes", "h", "w", "batch", "meta")} | {
         "frames(n_bumps)": [len(f["bumps"]) for f in case["frames"]]
-    }
+    } | ({"gt_slots": case["gt_slots"], "frames(n_gt)": [len(g) for g in case["gt"]]} if "gt" in case else {})
 
 
 def parts(tier):
+    import functools
+
+    w = {"single": 1, "centroids": 1, "topdown": 2, "bottomup": 1, "topdown-gt": 1}
+    floor = {"single": 6, "centroids": 10, "topdown": 20, "bottomup": 15, "topdown-gt": 8}  # about a third of the lowest count measured over seeds
     return [
-        Part(name="batches", evaluate=evaluate, strategy=strategy, summarize=summarize,
-             budget={"quick": 400, "thorough": 150000}, min_nontrivial={"quick": 80, "thorough": 10000}),
+        Part(name=f"batches-{m}", evaluate=evaluate, strategy=functools.partial(strategy, m), summarize=summarize,
+             budget={"quick": 80 * w[m], "thorough": 30000 * w[m]}, min_nontrivial={"quick": floor[m], "thorough": 1000 * w[m]})
+        for m in MODELS
+    ] + [
         Part(name="bottomup-labels", evaluate=evaluate_topk, strategy=strategy_topk,
              budget={"quick": 300, "thorough": 120000}, min_nontrivial={"quick": 30, "thorough": 4000}),
     ]
